@@ -77,6 +77,8 @@ def run(tier):
         for i in range(n + 1):
             ds = [cal] if i == 0 else [vppsynth.rand_diagram(r, "SM%d" % k) for k in range(r.choice([1, 2, 3]))]
             ncd = r.choice([0, 1, 2])
+            if i > 0 and len(ds) > 1 and r.random() < 0.6 and vppsynth.share_effects(r, ds):
+                oc.stat("projects_with_an_effect_activity_shared_between_diagrams")
             if i > 0 and i % 3 == 0:
                 # a project and a later revision of it (same element ids, other names and wiring), extracted one after
                 # the other in this process - to the same path or to another one
